@@ -386,6 +386,64 @@ fn check_case(c: &Case, rep: &mut Report) {
     }
 }
 
+/// The statistics mechanism names a code: computing the length of the data with *that* code through
+/// the length dispatcher (`CodeLen for Codes`) must give the space the statistics report for it.
+fn stats_named_code(seed: u64, rounds: usize, rep: &mut Report) {
+    let mut rng = Rng::derive(seed, 0xC10_57A7);
+    for r in 0..rounds {
+        // distributions with different winners: geometric-ish, uniform below 2^k, heavy tails
+        let shape = r % 6;
+        let k = 1 + rng.below(40) as u32;
+        let n = 20 + rng.below(300) as usize;
+        let vals: Vec<u64> = (0..n)
+            .map(|_| match shape {
+                0 => {
+                    let m = 1 + rng.below(8);
+                    rng.below(m)
+                }
+                1 => rng.below(1u64 << k),
+                2 => rng.log_uniform(k + 8),
+                3 => {
+                    let sh = 20 + rng.below(20);
+                    (1u64 << sh) + rng.below(1 << 20)
+                }
+                4 => {
+                    let a = rng.log_uniform(20);
+                    a.wrapping_mul(rng.log_uniform(20))
+                }
+                _ => {
+                    let a = rng.below(200);
+                    let b = (rng.below(5) == 0) as u64;
+                    a + b * rng.log_uniform(50)
+                }
+            })
+            .collect();
+        macro_rules! one {
+            ($Z:expr, $G:expr, $EG:expr, $R:expr, $P:expr) => {{
+                let mut s = CodesStats::<$Z, $G, $EG, $R, $P>::default();
+                for v in &vals {
+                    s.update(*v);
+                }
+                let (code, total) = s.best_code();
+                let mine: u128 = vals.iter().map(|v| code.len(*v) as u128).sum();
+                rep.eval(1);
+                rep.cover("stats_winners", crate::report::hash_of(&format!("{:?}", code)));
+                rep.case(&("stats-winner", format!("{:?}", code), $P));
+                if mine != total as u128 {
+                    rep.violation(
+                        &format!("stats|named-code-length|{}", format!("{:?}", code).split(|c: char| !c.is_alphabetic()).next().unwrap_or("")),
+                        || format!("statistics over {} values name {:?} with {} bits, but the length dispatcher of {:?} gives {} bits for the same values", vals.len(), code, total, code, mine),
+                        || format!("stats=1 seed={} round={}", seed, r),
+                    );
+                }
+            }};
+        }
+        one!(10, 20, 10, 10, 10);
+        one!(3, 2, 2, 2, 6);
+        one!(1, 1, 1, 1, 1);
+    }
+}
+
 pub fn run(ctx: &Ctx) -> Report {
     // identifiers: every public constant name; variants: parameters 0..=10 and beyond
     let mut named: Vec<(String, Code, Vec<D>)> = vec![];
@@ -422,6 +480,9 @@ pub fn run(ctx: &Ctx) -> Report {
     }
     let mut rep = par_items(ctx, "C10", &work, |&(e, i), rep| {
         let (name, code, ds) = &named[i];
+        if i < 8 && e == En::BE {
+            stats_named_code(ctx.seed ^ i as u64, ctx.pick(6, 300, 3000), rep);
+        }
         let mut rng = Rng::derive(ctx.seed, crate::report::hash_of(&(0xC10u64, e, i as u64)));
         let mut values = value_grid(*code, ctx.pick(8, 128, 300), &mut rng, ctx.pick(2, 60, 400));
         values.retain(|v| code_len(*code, *v) <= 2000);
@@ -445,6 +506,11 @@ pub fn run(ctx: &Ctx) -> Report {
 }
 
 pub fn replay(case: &str, rep: &mut Report) {
+    if case.starts_with("stats=1") {
+        let kv = Kv::parse(case);
+        stats_named_code(kv.u64("seed"), kv.usize("round") + 1, rep);
+        return;
+    }
     let kv = Kv::parse(case);
     let name = kv.get("name").to_string();
     let e = parse_en(kv.get("e"));
